@@ -62,6 +62,11 @@ def run(ctx):
                           "model and implementation disagree on %s" % dict(
                               estimator=rec.get('estimator'), L=rec['L'].tolist(), pairs=rec['pts'].tolist()))
   # the property oracle itself, on the implementation (defence in depth; also the search for a replay)
+  frecs = mc.float32_cases(ctx.rng, 200 if thorough else 40)
+  ctx.count('falsifier_float32_records', len(frecs))
+  for rec in frecs:
+    if falsify_rec(ctx, rec, 'metric_axioms'):
+      break
   nrecs = mc.nullspace_cases(ctx.rng, 400 if thorough else 60)
   ctx.count('falsifier_nullspace_records', len(nrecs))
   for rec in recs[:(len(recs) if thorough or not ok else 150)] + trecs + nrecs:
